@@ -77,7 +77,8 @@ HEADERS = ['#diffx:', '#.change:', '#..file:', '#.meta:', '#..meta:', '#...meta:
            '#...preamble:', '#...diff:', '#.diff:', '#..diff:', '#....diff:', '#....meta:', '#meta:', '#.Change:',
            '#.change', '#..files:', ' #.change:', '#diffx', '#.changes:']
 OPTIONS = ['', '', ' ', ' version=1.0', ' length=3', ' length=12, encoding=utf-8', ' format=json, length=2', '  x',
-           ' \xe9=あ', 'x=1', ' a=b\r']
+           ' \xe9=あ', 'x=1', ' a=b\r', ' indent=\u00b2, length=6', ' indent=\u2460', ' length=\u0663', ' indent=' + '9' * 4301,
+           ' indent=-1', ' indent=True', ' indent= 4', ' mimetype=text/markdown, indent=\u00b3']
 LINES = ['{\n', '    "a": 1,\n', '}\n', '{"k": [true, null, "s"]}\n', 'not json\n', '--- a/f\n', '+++ b/f\n',
          '@@ -1,2 +1,2 @@\n', '-old\n', '+new\n', ' ctx\n', 'delta 3\n', 'delta 12\n', 'delta ٣\n', 'delta x\n',
          '...\n', '....\n', ' ...\n', '\n', 'text', 'text\r\n', '#.x\n', '#. \n', '#..f', '#.Z\n', 'a #.b\n', '#\n', '\xe9\n',
